@@ -90,6 +90,12 @@ func checkID(id, kind string, sigil byte) (err error) {
 		}
 		return
 	}
+	if sigil == '!' {
+		// PDU.RoomID() panics on a room ID that does not parse, so refuse it here.
+		if _, err = spec.NewRoomID(id); err != nil {
+			err = fmt.Errorf("gomatrixserverlib: invalid room ID %q: %w", id, err)
+		}
+	}
 	return
 }
 
